@@ -7,7 +7,7 @@ from hypothesis import strategies as st
 ARGS = {"x": "int", "n": "int", "s": "str", "xs": "ilist", "ys": "ilist", "ss": "iset", "d": "sdict", "t": "itup",
         "o": "obj", "m": "mat", "id": "int", "G": "int", "zs": "sset", "q": "qobj"}
 CLOSURE = {"C": "int", "CS": "str", "CL": "ilist", "H": "int"}  # H exists as a module global too (closure wins)
-GLOBALS = {"G": "int", "GS": "str", "GL": "ilist", "Y": "int"}
+GLOBALS = {"G": "int", "GS": "str", "GL": "ilist", "Y": "int"}  # plus d0 = {"a": 2} (only used by name in templates)
 EXTRA_ARGS = {"Y": "int"}  # a parameter of the function that the condition never takes; collides with the global Y
 CMP_OPS = ["<", "<=", ">", ">=", "==", "!="]
 ALPHABET = "abcxyz\u00e9\u03bb"  # two non-ASCII letters: ascii() and repr() differ on them
@@ -63,7 +63,23 @@ class Gen:
     def t_int(self, depth):
         if depth <= 0:
             return self.pick([str(self.draw(st.integers(-2, 9))), self.name("int")])
-        k = self.draw(st.integers(0, 15))
+        k = self.draw(st.integers(0, 18))
+        if k == 16:
+            # the remaining unary and binary operators (small operands: no huge powers or shifts)
+            self.features.add("rare-operator")
+            e = self.expr("int", depth - 1)
+            return self.pick(["(+%s)", "(~%s)", "(%s ** 2)", "(%s << 1)", "(%s >> 1)", "int(%s / 2)", "((m @ m)[0, 1] + %s)"]) % e
+        if k == 17:
+            # dict displays and ** in calls
+            self.features.add("dict-display")
+            a, b = self.expr("int", depth - 1), self.expr("int", depth - 1)
+            return self.pick(["kw(**{'a': %s, 'b': %s})", "len({'a': %s, 'k': %s})", "{'a': %s}['a'] + %s",
+                              "kw(**d0, b=%s) + %s"]) % (a, b)
+        if k == 18:
+            # starred items in list/tuple/set displays, ** in dict displays
+            self.features.add("starred-display")
+            xs, e = self.expr("ilist", depth - 1), self.expr("int", depth - 1)
+            return self.pick(["len([*%s, %s])", "sum((*%s, %s))", "len({*%s, %s})", "len({**{'k': len(%s)}, 'j': %s})"]) % (xs, e)
         if k == 0:
             return str(self.draw(st.integers(-2, 9)))
         if k == 1:
@@ -436,7 +452,7 @@ def build_inputs(desc):
 
 
 CLOSURE_VALUES = {"C": 3, "CS": "cz", "CL": [1, 2, 3], "H": 200}
-GLOBAL_VALUES = {"G": 5, "GS": "gab", "GL": [4, 0, -1], "Y": 10, "H": 100}
+GLOBAL_VALUES = {"G": 5, "GS": "gab", "GL": [4, 0, -1], "Y": 10, "H": 100, "d0": {"a": 2}}
 
 
 @st.composite
